@@ -53,7 +53,8 @@ def check_utility_ownership(ctx: CheckContext, p: Program, r: Resolver, cone: Li
                     continue
                 n += 1
                 a = st.args[0]
-                ok = _is_deepcopy(r, f, a)
+                ok = _is_deepcopy(r, f, a) or (isinstance(a, ast.Name) and a.id in local_copies
+                                               and sum(1 for x in body_nodes(f) if isinstance(x, ast.Assign) and any(isinstance(t, ast.Name) and t.id == a.id for t in x.targets)) == 1)
                 why = ""
                 if not ok:
                     why = (f"{ast.unparse(st.func.value)} receives {ast.unparse(a)}, which is not a deep copy made here: "
